@@ -611,10 +611,7 @@ class UniformTime(np.ndarray, TimeInterface):
             elif tspec == tspecs_w_data['sampling_interval']:
                 duration = data.duration
             elif tspec == tspecs_w_data['sampling_rate']:
-                if isinstance(sampling_rate, Frequency):
-                    sampling_interval = sampling_rate.to_period()
-                else:
-                    sampling_interval = 1.0 / sampling_rate
+                # the interval is derived from the rate (in Hz) below
                 duration = data.duration
             elif tspec == tspecs_w_data['length']:
                 duration = length * data.sampling_interval
